@@ -99,7 +99,8 @@ def _same(x, y):
     return bool(np.array_equal(x, y))
 
 
-VARIANTS = [("i", "ii"), ("f", "ff"), ("s", "if"), ("mixed", "fi")]   # (label kinds, data dtypes of a and b)
+VARIANTS = [("i", "ii"), ("f", "ff"), ("s", "if"), ("mixed", "fi"), ("u", "fi"), ("f@big", "ff"), ("mixed@big", "if")]
+# (label kinds, data dtypes of a and b); u: unsigned labels; f@big: float labels around 1e6 spaced by 0.5; mixed@big: int and float labels around 2e7
 
 
 def replay(scn):
@@ -111,10 +112,10 @@ def replay(scn):
     old = np.seterr(all="ignore")
     try:
         for vi, (lk, dts) in enumerate(VARIANTS):
-            mixed = lk == "mixed"
-            codec = A.LabelCodec(mixed=mixed)
-            ka = "i" if mixed else lk
-            kb = "f" if mixed else lk
+            mixed = lk.startswith("mixed")
+            codec = A.LabelCodec(mixed=mixed, offset={"f@big": 2000000, "mixed@big": 40400200}.get(lk, 0))
+            ka = "i" if mixed else lk[0]
+            kb = "f" if mixed else lk[0]
             a_abs = dict(i["a"], dtype=dts[0])
             b_abs = dict(i["b"], dtype=dts[1])
             a = A.gamma(a_abs, codec, [ka] * len(a_abs["dims"]))
